@@ -9,49 +9,49 @@ NOTE = ("Verdict = no member of the stated finite space violates the property (s
         "Runs on an instrumented copy of /repo's working tree (import redirection only for this check); conformance of the copy: the repository's own suite passes on it. Float tolerance 1e-5; ties unspecified.")
 C = {}
 C["C01"] = dict(engine="histmc", cat="model_checking", technique=HIST,
-  text="Every Add/Remove/Flush history up to the depth bound over colliding ids and a tie-rich vector alphabet is executed on the real FlatIndex; in every reached state every query of the alphabet (query x k x threshold x id restriction) is compared with a brute-force float64 oracle. Exhaustive within the bound, nothing sampled.",
+  text="Every Add/Remove/Flush history up to the depth bound over colliding ids and a tie-rich vector alphabet is executed on the real FlatIndex; in every reached state every query of the alphabet (query x k x threshold x id restriction) is compared with a brute-force float64 oracle. Exhaustive within the bound, nothing sampled. Plus enumerated size dimensions: every n in 1..70/300 with five tails (mass deletes, update of one vector, remove-all-then-add) and large instances (n up to 1030/4100, k up to n); Remove with a node carrying another vector.",
   note=NOTE)
 C["C02"] = dict(engine="histmc", cat="model_checking", technique=HIST,
-  text="For each of the five kinds x metric x construction parameters x training set, every Add/Remove/Flush history up to the bound is executed on the real index (HNSW level an enumerated choice); every query / node-id / multi-query observation is judged: live+eligible+distinct hits, kind-defined score (ADC recomputed from private codebooks for PQ/IVFPQ), order, k, node==query, aggregation rule, flush invariance for exhaustive kinds.",
+  text="For each of the five kinds x metric x construction parameters x training set, every Add/Remove/Flush history up to the bound is executed on the real index (HNSW level an enumerated choice); every query / node-id / multi-query observation is judged: live+eligible+distinct hits, kind-defined score (ADC recomputed from private codebooks for PQ/IVFPQ), order, k, node==query, aggregation rule, flush invariance for exhaustive kinds. Plus size sweeps and large instances as in C01 for every kind, prepared search objects re-executed after each operation, Remove with a node carrying data, and refused Train calls before each observation.",
   note=NOTE + " Approximate kinds are judged for soundness here; completeness is C12/C13/C14.")
 C["C06"] = dict(engine="histmc", cat="model_checking", technique=HIST,
-  text="Every history over valid and failing Add/AddWithID (failure in the 1st or 3rd sub-index), Remove of live/removed/unknown ids, Flush and re-add of removed ids, on the real hybrid index (5 sub-index configurations) and on each of the seven single indexes; after every transition each modality is probed through the hybrid search and directly on the sub-indexes and compared with a map id->content.",
+  text="Every history over valid and failing Add/AddWithID (failure in the 1st or 3rd sub-index), Remove of live/removed/unknown ids, Flush and re-add of removed ids, on the real hybrid index (5 sub-index configurations) and on each of the seven single indexes; after every transition each modality is probed through the hybrid search and directly on the sub-indexes and compared with a map id->content. Values whose acceptance is the implementation's choice (NaN, 1e300) are included: whichever way the call goes, it must go that way as a whole.",
   note=NOTE)
 C["C12"] = dict(engine="histmc", cat="model_checking", technique=HIST + "; HNSW level and map-order-dependent entry-point re-election are enumerated environment choices",
-  text="Every Add(value, level)/Remove(any live id)/Flush(every legal re-elected entry point) history within the bounds on the real HNSWIndex; in every state non-emptiness, exactness under the 2M precondition, and the private-state reachability invariant are evaluated.",
+  text="Every Add(value, level)/Remove(any live id)/Flush(every legal re-elected entry point) history within the bounds on the real HNSWIndex; in every state non-emptiness, exactness under the 2M precondition, and the private-state reachability invariant are evaluated. Plus tails for M in {2,3,4,8,16}: all removed then one added (no flush), all but the last removed, entry point updated, up to 3M+4 / 6M+8 vectors.",
   note=NOTE + " One genuine defect is recorded as known finding (pruning heuristic cuts vertices off once a list has overflowed).")
 C["C13"] = dict(engine="histmc", cat="model_checking", technique=HIST,
-  text="All training sequences over a small alphabet (duplicates, empty clusters, identical centroids) x nlist x metric x dim, then every Add/Remove/Flush history up to the bound; full probe judged against brute force, partial probes against every valid set of p nearest centroids, monotonicity in p, placement invariant, untrained use.",
+  text="All training sequences over a small alphabet (duplicates, empty clusters, identical centroids) x nlist x metric x dim, then every Add/Remove/Flush history up to the bound; full probe judged against brute force, partial probes against every valid set of p nearest centroids, monotonicity in p, placement invariant, untrained use. Plus large instances (n up to 1030/4100, k up to n) and refused Train calls before each observation.",
   note=NOTE)
 C["C14"] = dict(engine="histmc", cat="model_checking", technique=HIST,
-  text="Every nbits in 1..16 the constructors accept x M x nlist x metric x dim: lattice training, every Add/Remove/Flush history up to the bound; codes, scores, ranking and error bound are recomputed from the private codebooks; both Train preconditions probed at their boundary sizes.",
+  text="Every nbits in 1..16 the constructors accept x M x nlist x metric x dim: lattice training, every Add/Remove/Flush history up to the bound; codes, scores, ranking and error bound are recomputed from the private codebooks; both Train preconditions probed at their boundary sizes. Plus large instances and refused Train calls on trained, populated indexes before each observation.",
   note=NOTE)
 
 C["C03"] = dict(engine="histmc", cat="model_checking", technique=HIST,
-  text="Every Add/Replace/Remove/Flush history up to the bound over a text alphabet exercising normalisation and segmentation corner cases is executed on the real BM25 index; every (query, k, restriction) and multi-query/aggregation observation is compared with a from-scratch float64 Okapi BM25 over the not-yet-flushed corpus, and the private running totals with the model's.",
+  text="Every Add/Replace/Remove/Flush history up to the bound over a text alphabet exercising normalisation and segmentation corner cases is executed on the real BM25 index; every (query, k, restriction) and multi-query/aggregation observation is compared with a from-scratch float64 Okapi BM25 over the not-yet-flushed corpus, and the private running totals with the model's. Plus every Unicode scalar value (and letter x combining-mark pair) as a token, raw / normal-form / upper-cased on either side.",
   note=NOTE + " uax29 / x-text NFKC are trusted as the tokeniser and called directly by the oracle.")
 C["C04"] = dict(engine="histmc", cat="model_checking", technique=HIST,
-  text="Every Add/Remove history up to the bound over documents mixing all value kinds; in every state every single filter, its Not(), the empty filter list and every filter tree over a basis of up to 6 distinct-answer filters is compared with direct predicate evaluation.",
+  text="Every Add/Remove history up to the bound over documents mixing all value kinds; in every state every single filter, its Not(), the empty filter list and every filter tree over a basis of up to 6 distinct-answer filters is compared with direct predicate evaluation. Remove is given nodes carrying no / the indexed / another document's / unknown-field metadata.",
   note=NOTE + " One genuine defect (mixed-sign numeric comparison, root cause in the BSI dependency) is a known finding identified by a witness predicate.")
 C["C05"] = dict(engine="histmc", cat="model_checking", technique=HIST,
-  text="All 8 sub-index configurations x every AddWithID/Add/Remove history up to the bound; in every state every query of the alphabet (vector x text x filter shape x k x fusion x aggregation) is compared with the composed oracle: model filter set, exact filtered k-NN, reference BM25 top-k, fusion rule, ranking.",
+  text="All 8 sub-index configurations x every AddWithID/Add/Remove history up to the bound; in every state every query of the alphabet (vector x text x filter shape x k x fusion x aggregation) is compared with the composed oracle: model filter set, exact filtered k-NN, reference BM25 top-k, fusion rule, ranking. Plus option pass-through: for each vector kind every k x nProbes x efSearch x threshold x filter combination against a direct search of the wrapped index.",
   note=NOTE + " Queries whose per-modality cut falls on a tie are skipped and counted; three ambiguous corners are accepted either way (listed in evidence assumptions).")
 
 DOM = "exhaustive enumeration of a bounded input lattice on the real functions (domainmc)"
 C["C07"] = dict(engine="histmc", cat="model_checking", technique=HIST + "; per state a differential round-trip oracle (source vs reloaded, lock-step continuation)",
-  text="For each of the eight kinds, every state reached by Add/Remove/Flush histories up to the bound (plus untrained/empty) is written, read into a fresh index through a counting reader over stream+sentinel, and compared: byte counts, exact consumption, removed ids absent, identical answers, identical behaviour under every further operation.",
+  text="For each of the eight kinds, every state reached by Add/Remove/Flush histories up to the bound (plus untrained/empty) is written, read into a fresh index through a counting reader over stream+sentinel, and compared: byte counts, exact consumption, removed ids absent, identical answers, identical behaviour under every further operation. The stream written twice back to back must decode, copy after copy, through *os.File, bufio, bytes.Buffer, strings.Reader, MultiReader and one-byte readers.",
   note=NOTE + " For kinds holding a BM25 index, writing is compared with an explicitly flushed independent copy (WriteTo is specified to flush first and a flush legitimately changes BM25 statistics).")
 C["C16"] = dict(engine="domainmc", cat="fault_enumeration", technique="exhaustive enumeration of truncation points and mismatch pairs over every state reached by history BFS (domainmc over histmc states)",
   text="Every strict prefix of the serialisation of every reached state of every kind is fed to a fresh receiver and must be rejected; the complete kind / one-parameter / version / magic mismatch matrix must be rejected; store segments with a truncated, empty or missing component file must contribute nothing.",
   note=NOTE)
 C["C18"] = dict(engine="domainmc", cat="exploration", technique=DOM,
-  text="All vectors over a 15-value magnitude-spanning alphabet in dimensions 1-2 (7 values in d=3), all ordered pairs, all triples for the triangle inequality, structured d=64/512 families: every stated law is evaluated on every member.",
+  text="All vectors over a 15-value magnitude-spanning alphabet in dimensions 1-2 (7 values in d=3), all ordered pairs, all triples for the triangle inequality, structured d=64/512 families: every stated law is evaluated on every member. Plus every batch length 0..600/4200 x 4 dimensions x 3 kinds, bit-equal to the scalar call.",
   note="Exhaustive over the stated lattice only; tolerances 8*d*2^-23 relative to operand magnitudes; runs on the instrumented copy of /repo.")
 C["C19"] = dict(engine="domainmc", cat="exploration", technique=DOM,
   text="All result lists up to length 3/4 over ids x scores incl. +-Inf/NaN with every permutation, every k and cutoff, all score lists up to length 5 for autocut, all pairs of 125 score maps for each fusion, all NaN-free lists for merge.",
   note="Exhaustive over the stated lattice only; NaN propagation not judged; runs on the instrumented copy of /repo.")
 C["C20"] = dict(engine="domainmc", cat="exploration", technique=DOM + " + differential history check (train once vs twice)",
-  text="All training sequences over a small lattice x k x maxIter x metric for k-means; all 65536 half bit patterns and all adjacent-half midpoints (thorough: every float32 in the half normal range) for float16; level-boundary sweeps for int8; bit-exactness for float32.",
+  text="All training sequences over a small lattice x k x maxIter x metric for k-means; all 65536 half bit patterns and all adjacent-half midpoints (thorough: every float32 in the half normal range) for float16; level-boundary sweeps for int8; bit-exactness for float32. Plus every operation sequence of length <= 5/6 over one int8 quantiser object (Train x3, SetAbsMax x3, Quantize, Dequantize) against a fresh quantiser with the same range.",
   note="Exhaustive over the stated lattices only; runs on the instrumented copy of /repo.")
 
 STORE_NOTE = ("Runs on the L1+L2 instrumented copy of /repo (imports of sync, sync/atomic, math/rand/v2, os, time redirected; go/chan/select in the storage files rewritten to internal/vrt) over an in-memory file system with the store's worker and per-segment goroutines as scheduler threads. "
@@ -61,13 +61,13 @@ C["C08"] = dict(engine="histmc", cat="model_checking", technique=HIST + " + " + 
   text="Every sequential history over Add/AddWithID/Remove/Flush/Rotate/Drain/Compact/Tick/Evict/Search up to the bound for 3 memtable limits x 2 flush thresholds x 2 compaction thresholds x 2 template sets, and every bounded interleaving of user threads with the background workers in four scenarios; after every transition / on every interleaving every probe query is compared with the set of acknowledged live documents.",
   note=STORE_NOTE)
 C["C09"] = dict(engine="histmc", cat="model_checking", technique=HIST,
-  text="Every multi-session history (add | flush | search)* close-reopen with fresh templates, up to 3/4 sessions, for 3 memtable limits x 3 vector template kinds x 2 template sets; durable documents must be found in every later state; segment file names are never created twice (from the file-system log).",
+  text="Every multi-session history (add | flush | search)* close-reopen with fresh templates, up to 3/4 sessions, for 3 memtable limits x 3 vector template kinds x 2 template sets; durable documents must be found in every later state; segment file names are never created twice (from the file-system log). Plus a fault sweep: every file-system call of a Flush / of Close's final flush fails in turn (EIO) under 3 base histories x 4 continuations; every nil answer promised durability.",
   note=STORE_NOTE)
 C["C10"] = dict(engine="crashmc", cat="fault_enumeration", technique="exhaustive enumeration of crash images (every prefix of the logged file-system operations x every byte prefix of the in-flight write), each reopened and checked on the real code (crashmc)",
-  text="For every history in the bound, every possible on-disk image at a process death inside a flush or a compaction is materialised and reopened with fresh templates: open and searches succeed, durable documents are found, the torn segment contributes nothing, identifiers are not reused.",
+  text="For every history in the bound, every possible on-disk image at a process death inside a flush or a compaction is materialised and reopened with fresh templates: open and searches succeed, durable documents are found, the torn segment contributes nothing, identifiers are not reused. For crash points at operation boundaries a second crash is explored: every operation boundary and mid-write point of the recovery flush (directories with two incomplete segments).",
   note=STORE_NOTE + " Fault model = process death; power-loss reordering is outside the statement (comet never syncs).")
 C["C11"] = dict(engine="schedmc", cat="model_checking", technique=SCHED + "; data races: separate free-running race-detector pass over the same scenario bodies",
-  text="Six 3-thread scenarios on one shared instance for each of eight index kinds plus five store scenarios: every interleaving with at most 2 (quick) / 3 (thorough) preemptions (one fewer for the store scenarios) is executed on the real code and judged for panics, deadlocks, spurious failures, visibility and id uniqueness; the race detector runs over free-running executions of the same bodies.",
+  text="Six 3-thread scenarios on one shared instance for each of eight index kinds plus five store scenarios: every interleaving with at most 2 (quick) / 3 (thorough) preemptions (one fewer for the store scenarios) is executed on the real code and judged for panics, deadlocks, spurious failures, visibility and id uniqueness; the race detector runs over free-running executions of the same bodies. Snapshots written by WriteTo during concurrent use (hybrid kind) are read back outside the schedule and judged (not torn; visibility).",
   note=STORE_NOTE + " Scheduling points at synchronisation operations; atomics sequentially consistent; the data-race clause is a sampling cross-check, not enumeration.")
 C["C17"] = dict(engine="histmc", cat="model_checking", technique=HIST + " + " + SCHED + "; file-system faults injected by (kind, n-th call)",
   text="Every sequence of Open / Open-with-one-injected-fault (5 fault sites) / foreign LOCK / Close / use on 3 handle slots up to the bound, with every public method on every closed handle after each transition; plus every bounded interleaving of Open||Open||Open, Close||Open, Close||Close, Close||use, Add||Close.",
